@@ -21,8 +21,26 @@
 (*      retried for ever)                                                  *)
 (***************************************************************************)
 EXTENDS Naturals
-CONSTANTS MaxRest, B, BUG
-VARIABLES rest, avail, skipped, st, rest0, avail0
+CONSTANTS
+    \* @type: Int;
+    MaxRest,
+    \* @type: Int;
+    B,
+    \* @type: Str;
+    BUG
+VARIABLES
+    \* @type: Int;
+    rest,
+    \* @type: Int;
+    avail,
+    \* @type: Int;
+    skipped,
+    \* @type: Str;
+    st,
+    \* @type: Int;
+    rest0,
+    \* @type: Int;
+    avail0
 vars == <<rest, avail, skipped, st, rest0, avail0>>
 Min(a, b) == IF a < b THEN a ELSE b
 
